@@ -2,6 +2,7 @@
 From Coq Require Import List NArith ZArith Bool Strings.Byte Strings.String.
 Import ListNotations.
 Require Import Params Iauth IauthFacts.
+Require ClassSpec MaskSpec Sorted.
 Local Open Scope list_scope.
 
 Theorem class_is_first_matching_rule : forall ss rs r,
@@ -22,3 +23,32 @@ Print Assumptions trust_username_upgrade.
 Theorem class_within_limit : forall ss rs r, (List.length (snd (classify ss rs r)) < CLASSLEN)%nat.
 Proof. exact class_fits. Qed.
 Print Assumptions class_within_limit.
+
+(* the glob criteria (account, ident, host name): the matcher's fuel is always enough - fnm computes exactly the fuel-free relation
+   Matches ('*' any string, '?' any one byte, every other byte itself) *)
+Theorem glob_criterion_is_the_documented_match : forall p s, fnm p s = true <-> ClassSpec.Matches p s.
+Proof. exact ClassSpec.fnm_spec. Qed.
+Print Assumptions glob_criterion_is_the_documented_match.
+
+(* both directions on the whole result of classify: either some rule is the first match of the list and decides class and U line,
+   or no rule matches and there is neither *)
+Theorem classification_is_decided_by_the_first_match : forall ss rs r,
+  (exists ru, ClassSpec.picks ss rs r ru /\ classify ss rs r = (trusted_line ru r, rule_class ru)) \/
+  ((forall x, In x rs -> rule_matches ss x r = false) /\ classify ss rs r = ([], [])).
+Proof. exact ClassSpec.classify_decided_by_first_match. Qed.
+Print Assumptions classification_is_decided_by_the_first_match.
+
+(* "in case-insensitive alphabetical order of rule names": for a rule table sorted by the order the configuration tree keeps its
+   children in (Conf.scmp on case-folded names, see C14 parsed_tree_is_sorted), the chosen rule is the matching rule of least name *)
+Theorem first_matching_rule_in_name_order : forall ss rs r ru,
+  Sorted.StronglySorted ClassSpec.name_lt (map r_name rs) -> ClassSpec.picks ss rs r ru ->
+  forall ru', In ru' rs -> rule_matches ss ru' r = true -> ru' = ru \/ ClassSpec.name_lt (r_name ru) (r_name ru').
+Proof. exact ClassSpec.first_matching_rule_in_name_order. Qed.
+Print Assumptions first_matching_rule_in_name_order.
+
+(* the address criterion is equality of the leading `bits` bits (abit: bit i of the 128, most significant first); /0 matches all *)
+Theorem address_criterion_is_prefix_equality : forall ru r m bits,
+  r_addr ru = Some (m, bits) -> (0 < bits <= 128)%N -> ClassSpec.wf8 (raddr r) -> ClassSpec.wf8 m ->
+  ClassSpec.addr_criterion ru r = true <-> (forall i, (i < bits)%N -> MaskSpec.abit (raddr r) i = MaskSpec.abit m i).
+Proof. exact ClassSpec.address_criterion_is_prefix_equality. Qed.
+Print Assumptions address_criterion_is_prefix_equality.
